@@ -214,7 +214,7 @@ ALL_EXTRACT = [{"args": ["states"], "out": "States.lean"}, {"args": ["keytypes"]
 
 PROPS = {
     "C11": {
-        "lean_files": ["AriesVerif/C11/Spec.lean", "AriesVerif/C11/Model.lean", "AriesVerif/C11/Props.lean",
+        "lean_files": ["AriesVerif/C11/Spec.lean", "AriesVerif/C11/Model.lean", "AriesVerif/C11/Props.lean", "AriesVerif/C11/NonDet.lean",
                        "AriesVerif/C11/Drv.lean"],
         "lake_targets": ["AriesVerif"],
         "classify": c11_classify,
